@@ -23,8 +23,11 @@ ALPHABET1 = [("setup", "A"), ("setup", "B"), ("setup", "C"), ("iterate",), ("ite
              ("sample",), ("get_progress",), ("is_complete",), ("get_output",), ("finalize",)]
 
 
-def cfgs_for(kind):
-    return LC_CFGS_G if kind == "gillespie" else LC_CFGS
+def cfgs_for(kind, space="grid"):
+    base = LC_CFGS_G if kind == "gillespie" else LC_CFGS
+    if space == "grid":
+        return base
+    return {k: dict(v, space="graph") for k, v in base.items()}
 
 
 def _call(sym, obj):
